@@ -196,6 +196,17 @@ def gen_case(tape, tier):
         # ones pipefunc builds (output name, sorted keyword items) are mapped to their file names, no file is written
         return {"part": "N", "config": {"cls": "disk", "cloudpickle": bool(tape.coin(0.5, "cp"))},
                 "n": 350 + tape.choose(60, "side"), "offset": tape.choose(1000, "offset")}
+    if tape.coin(0.002 if tier == "quick" else 0.001, "large-cache"):
+        # the capacities people actually use (the default is 128): fill beyond the bound, entry by entry, with gets in between
+        cls = tape.pick(["lru", "hybrid"], "cls")
+        n = tape.pick([128, 128, 129, 200], "large-max")
+        ops = []
+        for i in range(n + 3 + tape.choose(6, "extra")):
+            ops.append(["put", i, tape.pick([1, 2, 3, 5, 8], "duration")])
+            if i and tape.coin(0.3, "touch"):
+                ops.append(["get", tape.choose(i, "which")])
+        return {"part": "L", "config": {"cls": cls, "max_size": n, "shared": bool(tape.coin(0.3, "shared")), "cloudpickle": False,
+                                        "access_weight": 0.5, "duration_weight": 0.5}, "ops": ops}
     part = "A" if tape.coin(0.6, "part") else "B"
     if part == "A":
         cls = tape.pick(["lru", "lru", "hybrid", "hybrid", "simple", "disk", "disk"], "cls")
@@ -272,6 +283,13 @@ def gen_case(tape, tier):
 
 
 def simplify(case):
+    if case["part"] == "L":
+        for i in range(len(case["ops"]) - 1, -1, -1):
+            if case["ops"][i][0] == "get":
+                c = copy.deepcopy(case)
+                del c["ops"][i]
+                yield c
+        return
     if case["part"] == "N":
         return
     if case["part"] == "R":
@@ -872,6 +890,64 @@ def run_real(case):
     return out
 
 
+def run_large(case, tape):
+    """Part L: a cache of realistic capacity filled beyond its bound; after every put the set of resident keys is the
+    model's (the designated victim, and only it, is gone)."""
+    cfg = case["config"]
+    viol, probes = [], {"part:L": 1, f"cls:{cfg['cls']}": 1}
+
+    def V(oracle, kind, detail=None):
+        viol.append({"property": PID, "oracle": oracle, "kind": kind, "detail": detail,
+                     "signature": {"cls": cfg["cls"], "part": "L"}})
+
+    with C.Scratch() as root:
+        sim = C.new_sim(tape, root, preempt=0.0, clock=True, step_cap=5_000_000)  # a shared cache: one yield per RPC
+
+        def body():
+            c = _make_cache(cfg, root)
+            m = make_model(cfg)
+            put = []
+            for i, op in enumerate(case["ops"]):
+                key = f"k{op[1]}"
+                try:
+                    if op[0] == "get":
+                        got, exp = c.get(key), m.get(key)
+                        if got != exp:
+                            V("model", "get-returned-wrong-value", {"step": i, "key": key, "got": repr(got), "expected": repr(exp)})
+                            return
+                        continue
+                    victims = m.victims_for_put(key)
+                    if cfg["cls"] == "hybrid":
+                        c.put(key, f"v{op[1]}", float(op[2]))
+                    else:
+                        c.put(key, f"v{op[1]}")
+                except Exception as e:  # noqa: BLE001
+                    V("no-raise", f"{op[0]}-raised:{type(e).__name__}", {"step": i, "exc": repr(e)[:200]})
+                    return
+                gone = [k for k in put if m.present(k) and k not in c]
+                if victims == [None]:
+                    if gone:
+                        V("policy", "evicted-without-need", {"step": i, "gone": gone[:5], "len": len(c)})
+                        return
+                    m.put(key, f"v{op[1]}", duration=float(op[2]))
+                else:
+                    probes["eviction"] = probes.get("eviction", 0) + 1
+                    if len(gone) != 1 or gone[0] not in victims:
+                        V("policy", "evicted-other-than-the-designated-entry", {"step": i, "gone": gone[:5], "designated": victims[:5],
+                                                                               "len": len(c), "max_size": cfg["max_size"]})
+                        return
+                    m.put(key, f"v{op[1]}", victim=gone[0], duration=float(op[2]))
+                put.append(key)
+                if len(c) != len(m) or len(c) > cfg["max_size"]:
+                    V("bound", "len-differs-from-model", {"step": i, "len": len(c), "model": len(m), "max_size": cfg["max_size"]})
+                    return
+
+        with sim:
+            sim.kernel.run(body)
+        simmanager.shutdown_all(sim)
+    return viol, probes, sim
+
+
 def run_names(case):
     """Part N: injectivity of DiskCache's key -> file name mapping over a large family of realistic keys."""
     cfg = case["config"]
@@ -905,6 +981,12 @@ def run_case(case, exec_seed=None, exec_tape=None):
         return run_real(case)
     if case["part"] == "N":
         return run_names(case)
+    if case["part"] == "L":
+        tape = Tape(exec_seed) if exec_tape is None else Tape(recorded=exec_tape)
+        viol, probes, sim = run_large(case, tape)
+        return {"violations": viol, "probes": probes, "evaluations": 1, "yields": sim.kernel.steps, "sim_time": 0.0,
+                "exec_tape": tape.recorded(), "digest": sim.kernel.digest(), "nontrivial": [C.digest_of([case])], "sample": {
+                    "part": "L", "config": case["config"], "ops": len(case["ops"])}}
     tape = Tape(exec_seed) if exec_tape is None else Tape(recorded=exec_tape)
     if case["part"] == "A":
         viol, probes, sim = run_A(case, tape)
